@@ -4,8 +4,8 @@ import Driver.BlobDrv
 namespace Driver
 open BR.FindMissing
 
-/-- `fm.find batch=20 maxproxy=N proxy=0|1 digests=<size>:<local>:<proxy>[:e],...`
-    local: 0 absent, 1 present with that size, 2 present with another size; `e` marks the empty blob.
+/-- `fm.find batch=20 maxproxy=N proxy=0|1 digests=<tok>:<size>:<local>:<proxy>,...`
+    local: -1 absent, otherwise the logical size of the local entry with that hash; `E` is the empty blob's hash.
     Digest i gets the hash "h<i>" (duplicates: `d<j>` repeats digest j). -/
 def fmStep (toks : List String) : Option String :=
   match toks with
@@ -17,12 +17,16 @@ def fmStep (toks : List String) : Option String :=
       let items := if spec == "-" then [] else spec.splitOn ","
       let parsed ← items.mapM (fun t =>
         match t.splitOn ":" with
-        | [h, sz, l, p] => do some (h, (← parseInt? sz), (← l.toNat?), (← boolOf? p))
+        | [h, sz, l, p] => do some (h, (← parseInt? sz), (← parseInt? l), p)
         | _ => none)
       let ds : List Digest := parsed.map (fun (h, sz, _, _) => { hash := if h == "E" then emptySha256 else h, size := sz })
-      let idx : Index := fun h => (parsed.find? (fun (h', _, _, _) => h' == h)).bind (fun (_, sz, l, _) =>
-        if l == 1 then some sz else if l == 2 then some (sz + 1) else none)
-      let has : Digest → Bool := fun d => (parsed.find? (fun (h', _, _, _) => h' == d.hash)).map (fun (_, _, _, p) => p) |>.getD false
+      let idx : Index := fun h => (parsed.find? (fun (h', _, _, _) => h' == h)).bind (fun (_, _, l, _) =>
+        if l ≥ 0 then some l else none)
+      -- back-end answer per digest: "0" absent, "1" present reporting the stated size, "u" size unknown,
+      -- "m" another size, "b" a size above max_proxy_blob_size
+      let has : Digest → Option Int := fun d => (parsed.find? (fun (h', _, _, _) => h' == d.hash)).bind (fun (_, _, _, p) =>
+        if p == "1" then some d.size else if p == "u" then some (-1) else if p == "m" then some (d.size + 1)
+        else if p == "b" then some (maxp + 1) else none)
       let proxy : Proxy := if px then some has else none
       let missing := findMissing batch (fun _ => idx) proxy maxp ds
       some ("missing=" ++ showList (missing.map (fun d => if d.hash == emptySha256 then "E" else d.hash)) ++
